@@ -7,12 +7,13 @@ package main
 
 import (
 	"bytes"
-	"sort"
 	"context"
 	"errors"
 	"fmt"
 	"io"
 	"os"
+	"sort"
+	"time"
 
 	"github.com/kubewharf/kubebrain/pkg/storage"
 	imetrics "github.com/kubewharf/kubebrain/pkg/storage/metrics"
@@ -740,6 +741,73 @@ func snapshotCase(kv storage.KvStorage, n int, fwd bool, before int) (missing, e
 	return
 }
 
+// interleave: batch 1 is begun and guarded by a condition on `guard`; a second batch rewrites `guard` and commits
+// (memkv holds its mutex from BeginBatchWrite, so there the second batch can only start once the first has committed);
+// then batch 1 commits.  Variants of the guard: 0 = CAS(guard, v1, v1) (a no-op swap), 1 = CAS(guard, v1b, v1),
+// 2 = PutIfNotExist(guard2) while the second batch creates guard2.  Batch 1 also puts `other`.
+// Reported: did batch 2 commit before batch 1's Commit was called; the class of batch 1; whether `other` exists
+// afterwards; whether the guarded key holds batch 2's value.
+func interleave(kv storage.KvStorage, variant int) (b2first bool, c1 string, other, guard2 bool, errStr string) {
+	ctx := context.Background()
+	defer func() {
+		if p := recover(); p != nil {
+			c1, errStr = "RPanic", fmt.Sprint(p)
+		}
+	}()
+	gk := []byte("il/guard")
+	if variant == 2 {
+		gk = []byte("il/guard2")
+	} else {
+		b := kv.BeginBatchWrite()
+		b.Put(gk, []byte("v1"), 0)
+		if err := b.Commit(ctx); err != nil {
+			return false, "RPanic", false, false, "setup: " + err.Error()
+		}
+	}
+	b1 := kv.BeginBatchWrite()
+	done2 := make(chan error, 1)
+	go func() {
+		b2 := kv.BeginBatchWrite()
+		b2.Put(gk, []byte("v2"), 0)
+		done2 <- b2.Commit(ctx)
+	}()
+	var err2 error
+	select {
+	case err2 = <-done2:
+		b2first = true
+	case <-time.After(150 * time.Millisecond):
+	}
+	switch variant {
+	case 0:
+		b1.CAS(gk, []byte("v1"), []byte("v1"), 0)
+	case 1:
+		b1.CAS(gk, []byte("v1b"), []byte("v1"), 0)
+	case 2:
+		b1.PutIfNotExist(gk, []byte("mine"), 0)
+	}
+	b1.Put([]byte("il/other"), []byte("x"), 0)
+	err1 := b1.Commit(ctx)
+	c1, _, _, _, _ = classify(err1)
+	if err1 != nil {
+		errStr = err1.Error()
+	}
+	if !b2first {
+		select {
+		case err2 = <-done2:
+		case <-time.After(5 * time.Second):
+			return b2first, c1, false, false, "batch 2 never finished"
+		}
+	}
+	if err2 != nil {
+		errStr += " / batch 2: " + err2.Error()
+	}
+	_, eo := kv.Get(ctx, []byte("il/other"))
+	other = eo == nil
+	gv, eg := kv.Get(ctx, gk)
+	guard2 = eg == nil && string(gv) == "v2"
+	return
+}
+
 // wrapFault runs one call of the metrics wrapper over an engine whose matching call fails with `inject`, and reports
 // the class the wrapper's caller sees and whether the stored record survived.
 func wrapFault(scratch string, kind int, inject error) (observed string, intact bool, errStr string) {
@@ -921,6 +989,17 @@ func main() {
 						"batch": "Put k3, Put k150, Del k296", "missing_or_altered": mi, "not_in_snapshot": ex, "in_order": io2, "batch_applied": ap},
 					Outcomes: []string{fmt.Sprintf("snapshot:missing=%d,extra=%d", mi, ex)}})
 			}
+			_ = clear(kv)
+		}
+		// two interleaved batches: the guard of the first is invalidated by the second before the first commits
+		for variant := 0; variant < 3; variant++ {
+			_ = clear(kv)
+			b2first, c1, other, g2, es := interleave(kv, variant)
+			w.Add(lib.Case{Kind: "fixed:interleaved-batches/" + eng,
+				Coq: lib.App("KInterleave", coqEng[eng], lib.N(uint64(variant)), lib.Bool(b2first), c1, lib.Bool(other), lib.Bool(g2)),
+				JSON: map[string]interface{}{"engine": eng, "name": "interleaved-batches", "guard": []string{"CAS(guard,v1,v1)", "CAS(guard,v1b,v1)", "PutIfNotExist(guard2)"}[variant],
+					"batch2_committed_before_batch1_commit": b2first, "batch1_class": c1, "other_present": other, "guard_holds_batch2_value": g2, "err": es},
+				Outcomes: []string{"interleave:" + c1}})
 			_ = clear(kv)
 		}
 		er := rnd.Fork()
